@@ -1516,7 +1516,15 @@ func (ts *TSModel) checkBMCOnce(opt BMCOptions) (*BMCResult, error) {
 		cellVars0 = append(cellVars0, steps[0].cell[ci])
 		cellVarsK = append(cellVarsK, steps[K].cell[ci])
 	}
+	qK := c.Var("quiescent_at_K", 0)
+	solver.Assert(c.Eq(qK, quiescent[K]))
 	extractInto := func(r *BMCResult, model map[string]uint64) {
+		defer func() {
+			// the state after the last step is quiescent: say so for the replayer
+			if model[qK.Name] == 1 && (len(r.Schedule) == 0 || r.Schedule[len(r.Schedule)-1] >= 0) {
+				r.Schedule = append(r.Schedule, -1)
+			}
+		}()
 		for i := 0; i < K; i++ {
 			s := int(model[steps[i].sched.Name])
 			switch s {
@@ -1559,11 +1567,20 @@ func (ts *TSModel) checkBMCOnce(opt BMCOptions) (*BMCResult, error) {
 			}
 			cands = append(cands, cand{pr.Name, "safety", c.Or(viol...)})
 		}
+		// a final property is evaluated at a state where nobody can move; for i<K
+		// the schedule must say so explicitly (NONE), which loses nothing (a
+		// quiescent state stays quiescent) and tells the replayer where to look
+		quiescentAt := func(i int) *smt.Term {
+			if i < K {
+				return c.And(quiescent[i], c.Eq(steps[i].sched, c.BV(schedNone, 8)))
+			}
+			return quiescent[i]
+		}
 		for _, pr := range ts.Final {
 			var viol []*smt.Term
 			for i := 0; i <= K; i++ {
 				f, memo := substFor(i, -1)
-				viol = append(viol, c.And(quiescent[i], c.Not(c.Subst(pr.Term, f, memo))))
+				viol = append(viol, c.And(quiescentAt(i), c.Not(c.Subst(pr.Term, f, memo))))
 			}
 			cands = append(cands, cand{pr.Name, "final", c.Or(viol...)})
 		}
@@ -1574,9 +1591,9 @@ func (ts *TSModel) checkBMCOnce(opt BMCOptions) (*BMCResult, error) {
 				for t := range insts {
 					stuck = append(stuck, c.And(c.Ne(steps[i].pc[t], c.BV(pcDone, 8)), c.Ne(steps[i].pc[t], c.BV(pcIdle, 8))))
 				}
-				viol = append(viol, c.And(quiescent[i], c.Or(stuck...)))
+				viol = append(viol, c.And(quiescentAt(i), c.Or(stuck...)))
 			}
-			cands = append(cands, cand{"no-goroutine-blocked-forever", "final", c.Or(viol...)})
+			cands = append(cands, cand{"no-goroutine-blocked-forever", "blocked", c.Or(viol...)})
 		}
 		if opt.ProgressB > 0 && K-opt.ProgressB >= 0 {
 			var done []*smt.Term
@@ -1600,7 +1617,7 @@ func (ts *TSModel) checkBMCOnce(opt BMCOptions) (*BMCResult, error) {
 			inds = append(inds, v)
 			goals = append(goals, v)
 		}
-		want := append(append(append(append([]*smt.Term{}, schedVars...), inds...), cellVars0...), cellVarsK...)
+		want := append(append(append(append([]*smt.Term{qK}, schedVars...), inds...), cellVars0...), cellVarsK...)
 		r, model := solver.Check([]*smt.Term{c.Or(goals...), noOvf}, want)
 		res.Queries++
 		switch r {
@@ -1653,7 +1670,7 @@ func (ts *TSModel) checkBMCOnce(opt BMCOptions) (*BMCResult, error) {
 	res.Queries++
 	{
 		// a sample run (quiescent if the bound allows) for validation against the implementation
-		want := append(append(append([]*smt.Term{}, schedVars...), cellVars0...), cellVarsK...)
+		want := append(append(append([]*smt.Term{qK}, schedVars...), cellVars0...), cellVarsK...)
 		goal := []*smt.Term{noOvf, c.Ne(steps[K-1].sched, c.BV(schedHalt, 8))}
 		r, model := solver.Check(append(goal, quiescent[K]), want)
 		if r != smt.Sat {
@@ -1813,6 +1830,7 @@ type TSReplay struct {
 	FinalCells  map[string]uint64
 	Mismatch    string // non-empty if the run could not follow the schedule
 	Quiescent   bool
+	Blocked     int // threads found blocked at the (verified) quiescent point
 	StillRunnable int // thread instances that could still run when the schedule ended
 }
 
@@ -1919,6 +1937,31 @@ func (p *Program) ReplayTS(scenario *ssa.Function, cfg Config, pool int, schedul
 			break
 		}
 		if t == -1 {
+			// the model says nobody can move: check it on the implementation by
+			// trying every unfinished thread (a blocked one raises blockedSignal
+			// at its first operation, without side effects)
+			if !rp.Quiescent {
+				for ti, in := range insts {
+					if in.state != 1 && in.state != 2 {
+						continue
+					}
+					seg.visibleSeen, seg.spawned, seg.label, seg.holding = 0, nil, "", 0
+					var result any
+					func() {
+						defer func() { result = recover() }()
+						if in.state == 1 {
+							m.call(nil, token.NoPos, in.fn, in.args)
+						} else {
+							m.resumeStack(copyFrames(in.frames), 0)
+						}
+					}()
+					if _, isBlocked := result.(blockedSignal); !isBlocked {
+						rp.Mismatch = fmt.Sprintf("step %d: the model says nobody can move, but thread %d can", stepNo, ti)
+						return rp, nil
+					}
+					rp.Blocked++
+				}
+			}
 			rp.Quiescent = true
 			if !evalProps(seg.final, "final") {
 				return rp, nil
